@@ -978,6 +978,8 @@ def _neutral_edits(g):
         if a.generator or a.constant:
             continue
         if a.name not in given:
+            if a.default is not None and _holds_cfg(a.default):
+                continue                                                             # see _dc_defaults (equal copy given as a description)
             if a.default is not None:
                 out.append((f"explicit default {a.name}", g.but(kw=dict(g.kw, **{a.name: copy.deepcopy(a.default)}))))
             elif not a.required:
@@ -1035,7 +1037,66 @@ def _neutral_edits(g):
                 out.append((f"class extended: {cls.__name__} {e!r}", g.but(cls=cls, kw=dict(g.kw, **e))))
     if g.cls is z.Const1:
         out.append(("same constant in another class", g.but(cls=z.Const1bis)))
+    # defaults that are configurations carrying non-default Meta / Option / Path values: unset == an equal copy of the default
+    # given explicitly (equal in every field, ignored ones included: a copy that differs in a Meta value only is the recorded
+    # finding "Meta edit inside a sub-configuration equal to the declared default" and is deliberately NOT generated here)
+    dc = _dc_defaults()
+    if g.cls in dc:
+        pname, desc = dc[g.cls]
+        if pname not in given:
+            out.append((f"explicit copy of the default configuration {pname}", g.but(kw=dict(g.kw, **{pname: desc}))))
+    if g.cls is z.DcOld:
+        for cls, (pname, desc) in dc.items():
+            out.append((f"class extended by a parameter whose default is a configuration: {cls.__name__} unset", g.but(cls=cls)))
+            out.append((f"class extended by a parameter whose default is a configuration: {cls.__name__} explicit copy",
+                        g.but(cls=cls, kw=dict(g.kw, **{pname: desc}))))
     return out
+
+
+def _holds_cfg(v):
+    if isinstance(v, (list, tuple)):
+        return any(_holds_cfg(e) for e in v)
+    if isinstance(v, dict):
+        return any(_holds_cfg(e) for e in v.values())
+    return _is_cfg(v)
+
+
+def _dc_defaults():
+    """{class: (parameter, description of a configuration equal to the declared default in every field)}; written by hand
+    from the class definitions of the zoo (``clone`` is code under test and is not used to make the copy)"""
+    z = _x().zoo
+    O = lambda **k: G(z.DcOpt, k)                                                    # noqa: E731
+    return {
+        z.DcControl: ("optimizer", O(lr=0.5)),
+        z.DcMeta: ("optimizer", O(lr=1e-3, verbose=True)),
+        z.DcOption: ("optimizer", O(lr=0.5, note="other")),
+        z.DcPath: ("optimizer", O(cache=Path("/zoo/cache"))),
+        z.DcReqPath: ("optimizer", G(z.DcOptP, dict(p=Path("/zoo/p")))),
+        z.DcList: ("opts", [O(verbose=True), O(lr=0.5)]),
+        z.DcDict: ("named", {"a": O(note="n"), "b": O(lr=0.5)}),
+        z.DcNested: ("wrap", G(z.DcWrap, dict(k=1, opt=O(lr=0.5, verbose=True, cache=Path("/zoo/c"))))),
+    }
+
+
+def default_config_cases():
+    """[(name, [root descriptions])]: classes with a parameter whose default is a configuration (or a list / dict of
+    configurations) in which a Meta / Option / Path argument has a non-default value; alone, nested in a holder (depth 1, list
+    members), parameter unset / given as an equal copy / given another value"""
+    z = _x().zoo
+    dc = _dc_defaults()
+    out = []
+    for e in (1, 3):
+        out.append([G(z.DcOld, dict(epochs=e))])
+        for cls, (pname, desc) in dc.items():
+            out.append([G(cls, dict(epochs=e))])
+    for cls, (pname, desc) in dc.items():
+        out.append([G(cls, {"epochs": 1, pname: desc})])
+        out.append([G(z.DcHolder, dict(e=G(cls, dict(epochs=1)), es=[G(z.DcOld, dict(epochs=2)), G(cls, dict(epochs=3))]))])
+    out.append([G(z.DcMeta, dict(epochs=1, optimizer=G(z.DcOpt, dict(lr=0.7))))])
+    out.append([G(z.DcNested, dict(epochs=1, wrap=G(z.DcWrap, dict(k=2))))])
+    out.append([G(z.DcWrap), G(z.DcWrap, dict(k=1))])
+    out.append([G(z.DcHolder, dict(e=G(z.DcOld, dict(epochs=1)), es=[G(cls, dict(epochs=1)) for cls in dc]))])
+    return [(repr(roots)[:200], roots) for roots in out]
 
 
 def _case_neutral(rep, name, roots):
@@ -1083,6 +1144,24 @@ def run_c02(tier, seed):
         rep.guard("C02", name, _case_neutral, rep, name, roots)
     if done < len(cases):
         rep.notes.append(f"{done} of {len(cases)} graphs edited within the time budget (random order, seed {seed})")
+    # defaults that are configurations with non-default Meta / Option / Path values (always run, outside the time budget)
+    dcs = default_config_cases()
+    dc = _dc_defaults()
+    for cls, (pname, desc) in dc.items():
+        def equal_copy(cls=cls, pname=pname, desc=desc):
+            (v,), _ = build([desc])
+            rep.cases += 1
+            if not (_arguments(cls)[pname].default == v):
+                rep.fail("C02 hand-written copy of a default configuration is not equal to the declared default (harness)",
+                         f"{cls.__name__}.{pname}", copy=repr(v))
+        rep.guard("C02", f"{cls.__name__}.{pname}", equal_copy)
+    for name, roots in dcs:
+        rep.guard("C02", name, _case_neutral, rep, name, roots)
+
+        def against_spec(name=name, roots=roots):
+            objs, every = build(roots)
+            _check_spec(rep, name, every, what="C02 identifier of a configuration with a defaulted configuration parameter differs from the specification")
+        rep.guard("C02", name, against_spec)
     # generated paths: sealing with different contexts gives different paths and the same identifier
     def generated(xv):
         ids = set()
@@ -1103,7 +1182,10 @@ def run_c02(tier, seed):
         bound="%d graphs (the C01 enumeration), every node at every depth x {tags, parameter explicitly at its default, optional"
               " explicitly None, Meta/Option/Path parameter changed, meta-flagged configuration as optional value / list member"
               " (front, middle, back) / dict value, meta=False in a signature position, class extended by a defaulted / None /"
-              " Meta / Option / generated-path / list / dict parameter}; generated paths under 2 contexts" % done)
+              " Meta / Option / generated-path / list / dict parameter}; generated paths under 2 contexts; %d graphs over %d classes"
+              " whose defaulted parameter is a configuration (or list / dict of configurations, or nested) holding non-default"
+              " Meta / Option / Path values: unset == equal copy given explicitly, old class == class extended by that parameter"
+              % (done, len(dcs), len(dc)))
 
 
 # ======================================================================================================================
